@@ -533,6 +533,105 @@ Definition join_fields (sep : Z) (crlf : bool) (fs : list bytes) : bytes :=
   ztake (zlen line - len_newline line) line.
 
 (* ------------------------------------------------------------------------- *)
+(* Where a row goes: interp.writeCSV over the destination of the print        *)
+
+(* An output destination: an unbuffered sink (bytes.Buffer, *os.File, a pipe: [got] = what
+   has reached it), or a bufio.Writer of [size] bytes holding [buf] in front of another
+   destination (standard output given as a *bufio.Writer; the file and command streams of
+   iostream.go, which embed one of outputBufSize bytes). *)
+Inductive dest :=
+| DRaw (got : bytes)
+| DBuf (size : Z) (buf : bytes) (under : dest).
+
+(* bufio.Writer.Write: while len(p) > Available(): with an empty buffer write p straight
+   through, otherwise fill the buffer and flush it; then buffer what is left *)
+Fixpoint d_write (d : dest) (p : bytes) : dest :=
+  match d with
+  | DRaw got => DRaw (got ++ p)
+  | DBuf size buf under =>
+      if zlen p <=? size - zlen buf then DBuf size (buf ++ p) under
+      else if zlen buf =? 0 then DBuf size [] (d_write under p)
+      else
+        let n := size - zlen buf in
+        let p' := zdrop n p in
+        if zlen p' <=? size then DBuf size p' (d_write under (buf ++ ztake n p))
+        else DBuf size [] (d_write under (buf ++ p))
+          (* two writes to [under] (the flushed buffer, then p' straight through), modelled as
+             one write of their concatenation: where [under] cuts them is not observable once
+             it is closed (d_total_write) *)
+  end.
+
+(* bufio.Writer.Flush: this layer only *)
+Definition d_flush (d : dest) : dest :=
+  match d with
+  | DRaw got => DRaw got
+  | DBuf size buf under => DBuf size [] (d_write under buf)
+  end.
+
+Fixpoint d_depth (d : dest) : nat :=
+  match d with DRaw _ => O | DBuf _ _ under => S (d_depth under) end.
+
+(* end of the run / close of the stream: every layer is flushed, outermost first
+   (fuel = the number of layers) *)
+Fixpoint d_close_f (fuel : nat) (d : dest) : dest :=
+  match fuel, d with
+  | S f, DBuf size buf under => DBuf size [] (d_close_f f (d_write under buf))
+  | _, _ => d
+  end.
+
+Definition d_close (d : dest) : dest := d_close_f (d_depth d) d.
+
+(* what has reached the sink at the bottom *)
+Fixpoint delivered (d : dest) : bytes :=
+  match d with DRaw got => got | DBuf _ _ under => delivered under end.
+
+(* everything written so far, in order: delivered or still in some buffer *)
+Fixpoint d_total (d : dest) : bytes :=
+  match d with DRaw got => got | DBuf _ buf under => d_total under ++ buf end.
+
+(* the writer a print statement is handed, and whether its dynamic type is *bufio.Writer
+   (what writeCSV's type assertion asks; a stream that embeds one is not) *)
+Record out := mkOut { o_bufio : bool; o_d : dest }.
+
+Definition csv_buf_size : Z := 4096.   (* bufio default size used by csv.NewWriter *)
+
+(* interp.writeCSV(output, fields).
+   - output is a *bufio.Writer: csv.NewWriter(output) uses it directly when it holds at least
+     4096 bytes; a smaller one is wrapped by bufio.NewWriter in a private 4096-byte Writer
+     that nobody flushes: a row that fits it is lost ([Unmod]: a longer row reaches the
+     destination in part, byte-exactly unmodelled); the lone empty field is written by
+     writeOutput to output itself;
+   - otherwise output is wrapped in the scratch Writer p.csvOutput (4096 bytes), the row is
+     written to it and it is flushed before returning. *)
+Definition write_csv_to (sep : Z) (crlf : bool) (o : out) (fs : list bytes) : res out :=
+  let row := write_record sep crlf fs in
+  if o_bufio o
+  then
+    match o_d o with
+    | DBuf size _ _ =>
+        if csv_buf_size <=? size then Ok (mkOut true (d_write (o_d o) row))
+        else if lone_empty fs then Ok (mkOut true (d_write (o_d o) row))
+        else if zlen row <=? csv_buf_size then Ok o
+        else Unmod
+    | DRaw _ => Unmod
+    end
+  else
+    match d_flush (d_write (DBuf csv_buf_size [] (o_d o)) row) with
+    | DBuf _ _ under => Ok (mkOut false under)
+    | DRaw _ => Unmod
+    end.
+
+Fixpoint write_rows_to (sep : Z) (crlf : bool) (o : out) (rows : list (list bytes)) : res out :=
+  match rows with
+  | [] => Ok o
+  | fs :: rows' => do o' <- write_csv_to sep crlf o fs; write_rows_to sep crlf o' rows'
+  end.
+
+(* the bytes at the destination after the rows were printed and the run ended *)
+Definition emit_rows (sep : Z) (crlf : bool) (o : out) (rows : list (list bytes)) : res bytes :=
+  do o' <- write_rows_to sep crlf o rows; Ok (delivered (d_close (o_d o'))).
+
+(* ------------------------------------------------------------------------- *)
 (* Specification: an RFC 4180 reader with lenient quotes, written from the
    grammar, independent of the code above.  A lexer marks the structural items
    (quote, line break, separator, comment character); a six-state machine
